@@ -24,10 +24,10 @@ import (
 // C17: retry — bounded attempts, only transient failures, capped backoff, prompt cancel.
 
 type C17Cfg struct {
-	MaxRetries int     `json:"max_retries"`
-	InitialNS  int64   `json:"initial_ns"`
-	Factor     string  `json:"factor"` // decimal text, or "NaN", "+Inf", "-Inf"
-	MaxNS      int64   `json:"max_ns"`
+	MaxRetries int    `json:"max_retries"`
+	InitialNS  int64  `json:"initial_ns"`
+	Factor     string `json:"factor"` // decimal text, or "NaN", "+Inf", "-Inf"
+	MaxNS      int64  `json:"max_ns"`
 }
 
 func (c C17Cfg) factor() float64 {
@@ -326,13 +326,13 @@ func TestC17Direct(t *testing.T) {
 // end to end: the Streamable and legacy SSE clients against scripted peers
 
 type C17E2ECase struct {
-	Kind    int      `json:"kind"` // 0 streamable, 1 legacy SSE
-	Retry   bool     `json:"retry"`
-	Simple  bool     `json:"simple"` // WithSimpleRetry instead of WithRetry
-	Cfg     C17Cfg   `json:"cfg"`
-	Script  []string `json:"script"`
-	Body    string   `json:"body"` // body text of scripted error statuses
-	Call    string   `json:"call"`
+	Kind   int      `json:"kind"` // 0 streamable, 1 legacy SSE
+	Retry  bool     `json:"retry"`
+	Simple bool     `json:"simple"` // WithSimpleRetry instead of WithRetry
+	Cfg    C17Cfg   `json:"cfg"`
+	Script []string `json:"script"`
+	Body   string   `json:"body"` // body text of scripted error statuses
+	Call   string   `json:"call"`
 }
 
 var c17Bodies = []string{"scripted status", "", "upstream said 500 Internal", "retry in 500 ms", "code 503", "error 429 ", "ok"}
